@@ -25,12 +25,16 @@ BAD_FORMS = [['str', 'nosuchname'], ['int', -1], ['str', 'rgb(1,2)'], ['str', 'r
              ['other', False], ['str', '-5'], ['list', [['str', 'red'], ['selfref']]], ['str', '['], ['str', 'rgb(1,2,x)']]
 
 
+ESC_PIECES = ['\x1b[2J', '\x1b[1;2H', '\x1b[1M', '\x1b[3~', '\x1b[', '\x1b', '\x1b[1m', '\x1b[31', '\x1b[m', '1m', '[', 'm']
+
+
 class Gen:
-    def __init__(self, rng, odd=False, bad=0.0, unicode_=True):
+    def __init__(self, rng, odd=False, bad=0.0, unicode_=True, esc=0.0):
         self.r = rng
         self.odd = odd          # allow ill-formed verbatim settings
         self.bad = bad          # probability of a malformed argument
         self.unicode = unicode_
+        self.esc = esc          # probability that a text carries pieces of control sequences (U+001B in the text)
 
     # ---------------- atoms
     def text(self, lo=0, hi=8):
@@ -46,6 +50,10 @@ class Gen:
                 out.append(c)
             else:
                 out.append(r.choice(ALPHA))
+        if self.esc and r.random() < self.esc:
+            # complete non-SGR sequences, SGR-spelling text, unterminated and bare introducers, case-convertible final bytes
+            for _ in range(r.choice([1, 1, 2])):
+                out.insert(r.randint(0, len(out)), r.choice(ESC_PIECES))
         return ''.join(out)
 
     def simple_form(self):
